@@ -104,25 +104,26 @@ inductive Shape (var : Variant) (s : State) (a : SaveReq) : State × SaveOut →
       (hr : rowOf s.ents a.id = some r) (hv : r.version = a.oldVersion)
       (hc : conflict s.ents r.id nsId r.typ a.name = false)
       (hck : checkNamespace s a = none) (hlate : lateCheck var s a = none)
-      (hb : createBlocked s a = false) (he : effCreate s a = false) :
+      (hb : createBlocked s a = false) (he : effCreate s a = false) (htyp : typeMatches var r a = true) :
       Shape var s a (editedState s a r nsId, .ok (mkEvent a r.id (maxVer s.ents + 1) nsId) false)
 
 theorem saveEdit_shape (var : Variant) (s : State) (a : SaveReq) (nsId : Int)
     (hns : resolveNs s a = .ok nsId) (hck : checkNamespace s a = none) (hlate : lateCheck var s a = none)
     (hb : createBlocked s a = false) (he : effCreate s a = false) :
-    Shape var s a (saveEdit s a nsId) := by
+    Shape var s a (saveEdit var s a nsId) := by
   unfold saveEdit
   cases hr : rowOf s.ents a.id with
   | none => exact .err _
   | some r =>
     simp only
-    by_cases hv : versionMatches r a = true
+    by_cases hv : rowMatches var r a = true
     · simp only [hv, if_true]
       by_cases hc : conflict s.ents r.id nsId r.typ a.name = true
       · simp only [hc, if_true]; exact .err _
       · simp only [hc]
-        have hv' : r.version = a.oldVersion := by simpa [versionMatches] using hv
-        exact .edited nsId r hns hr hv' (by simpa using hc) hck hlate hb he
+        have hv2 : versionMatches r a = true ∧ typeMatches var r a = true := by simpa [rowMatches] using hv
+        have hv' : r.version = a.oldVersion := by simpa [versionMatches] using hv2.1
+        exact .edited nsId r hns hr hv' (by simpa using hc) hck hlate hb he hv2.2
     · simp only [hv]; exact .err _
 
 theorem saveCreate_shape (var : Variant) (s : State) (a : SaveReq) (nsId : Int)
@@ -906,13 +907,12 @@ theorem nsRow_some {l : List Entity} {id : Int} {v : Nat} {r : Entity} (h : nsRo
   exact ⟨h1, h2.1.1, h2.1.2, h2.2⟩
 
 /-- "namespaces cannot be renamed".
-    FULL STATEMENT (false for the code, see the last `example` of this section): after any successful save every row of type
-    namespace has the name it had before.
-    PROVED (partial: requests of type namespace, which is how the property's "requests for … namespaces" is read here): a successful
-    request of type namespace that edits an existing row (whatever its create flag and id sign) carries exactly the name the row
-    already has, and the row is a namespace row. What is missing: requests whose type differs from the row's type — SaveEntity never
-    compares the two. (On the pinned tree the partial statement is false as well, for `create = true` on an existing builtin
-    namespace: `saveV .old` examples below; that is the defect fixed by fixes/C15-builtin-namespace-rename.diff.) -/
+    REQUEST-LEVEL FORM (kept; the full statements are `namespace_keeps_name` for one step and `namespace_not_renamable` over
+    histories, below): a successful request of type namespace that edits an existing row (whatever its create flag and id sign)
+    carries exactly the name the row already has, and the row is a namespace row. Requests of a foreign type aimed at a namespace's
+    id are rejected by the typed row selection (`foreign_type_edit_rejected`). On the pinned tree this statement is false for
+    `create = true` on an existing builtin namespace (`saveV .old` examples below; fixed by commit 36b353ab), and before commit
+    fb668983 (`saveV .untyped`) a foreign-typed request could rename the row. -/
 theorem namespace_not_renamable_partial (s : State) (hi : Inv s) (a : SaveReq) (s' : State) (ev : Event)
     (h : save s a = (s', .ok ev false)) (ht : a.typ = tNamespace) :
     ∀ r ∈ s.ents, r.id = a.id → r.name = a.name ∧ r.typ = tNamespace := by
@@ -948,13 +948,41 @@ theorem namespace_not_renamable_partial (s : State) (hi : Inv s) (a : SaveReq) (
         · simp [hname] at hck
         · exact key x hx (by simpa using hname)
 
-/-- THE STRONGEST TRUE FORM of "namespaces cannot be renamed" for the code as it is: whatever one SaveEntity does (any request,
-    any outcome), every namespace row is still there with its id and type, and it has its old name UNLESS the request named its id
-    with a type other than namespace. So the only way to rename a namespace is a request of a foreign type aimed at the namespace's
-    id — which SaveEntity and RawEditEntity accept (see the witness below and corpus/C15/type-mismatch-namespace-rename.ops). -/
-theorem namespace_rename_only_by_foreign_type (s : State) (hi : Inv s) (a : SaveReq) :
-    ∀ n ∈ s.ents, n.typ = tNamespace →
-      ∃ n' ∈ (save s a).1.ents, n'.id = n.id ∧ n'.typ = tNamespace ∧ (n'.name = n.name ∨ (a.id = n.id ∧ a.typ ≠ tNamespace)) := by
+/-- an edit is applied only to a row of the request's own type: the returned event carries the stored type -/
+theorem edit_preserves_type (s : State) (a : SaveReq) (s' : State) (ev : Event) (h : save s a = (s', .ok ev false)) :
+    ∃ r ∈ s.ents, r.id = a.id ∧ r.typ = a.typ ∧ ev.typ = r.typ := by
+  have hs := save_shape .fixed s a
+  unfold save at h
+  rw [h] at hs
+  cases hs with
+  | edited nsId r hns hr hv hc hck hlate hb he htyp =>
+    obtain ⟨hrm, hrid⟩ := rowOf_some hr
+    have ht : r.typ = a.typ := by simpa [typeMatches] using htyp
+    exact ⟨r, hrm, hrid, ht, by simp [mkEvent, ht]⟩
+
+/-- an edit of a foreign type (a dashboard request aimed at a metric, a metric request aimed at a namespace, …) is rejected and
+    changes nothing -/
+theorem foreign_type_edit_rejected (s : State) (a : SaveReq) (hedit : effCreate s a = false)
+    (hforeign : ∀ r ∈ s.ents, r.id = a.id → r.typ ≠ a.typ) : ∃ e, save s a = (s, .err e) := by
+  have hs := save_shape .fixed s a
+  unfold save
+  generalize saveV .fixed s a = p at hs
+  cases hs with
+  | err e => exact ⟨e, rfl⟩
+  | created nsId hns hc hb he => rw [hedit] at he; cases he
+  | edited nsId r hns hr hv hc hck hlate hb he htyp =>
+    obtain ⟨hrm, hrid⟩ := rowOf_some hr
+    exact absurd (by simpa [typeMatches] using htyp) (hforeign r hrm hrid)
+
+/-- no SaveEntity, whatever the request and its outcome, changes the type of a row (rows are never removed either) -/
+theorem save_keeps_types (s : State) (hi : Inv s) (a : SaveReq) :
+    ∀ n ∈ s.ents, ∃ n' ∈ (save s a).1.ents, n'.id = n.id ∧ n'.typ = n.typ :=
+  shape_persist hi (save_shape .fixed s a)
+
+/-- "namespaces cannot be renamed", one step, FULL STRENGTH (no restriction on the request): whatever one SaveEntity does, every
+    namespace row is still there with its id, its type and its name. -/
+theorem namespace_keeps_name (s : State) (hi : Inv s) (a : SaveReq) :
+    ∀ n ∈ s.ents, n.typ = tNamespace → ∃ n' ∈ (save s a).1.ents, n'.id = n.id ∧ n'.typ = tNamespace ∧ n'.name = n.name := by
   intro n hn hnt
   have hs := save_shape .fixed s a
   have hpart : ∀ s' ev, save s a = (s', .ok ev false) → a.typ = tNamespace → ∀ r ∈ s.ents, r.id = a.id → r.name = a.name ∧ r.typ = tNamespace :=
@@ -962,64 +990,86 @@ theorem namespace_rename_only_by_foreign_type (s : State) (hi : Inv s) (a : Save
   unfold save at hpart ⊢
   generalize saveV .fixed s a = p at hs hpart
   cases hs with
-  | err e => exact ⟨n, hn, rfl, hnt, Or.inl rfl⟩
+  | err e => exact ⟨n, hn, rfl, hnt, rfl⟩
   | created nsId hns hc hb he =>
-    exact ⟨n, (mem_insertById _ _ _).mpr (Or.inr hn), rfl, hnt, Or.inl rfl⟩
-  | edited nsId r hns hr hv hc hck hlate hb he =>
+    exact ⟨n, (mem_insertById _ _ _).mpr (Or.inr hn), rfl, hnt, rfl⟩
+  | edited nsId r hns hr hv hc hck hlate hb he htyp =>
     obtain ⟨hrm, hrid⟩ := rowOf_some hr
     by_cases hid : n.id = r.id
     · have hnr : n = r := hi.idUniq n hn r hrm hid
       subst hnr
+      have hat : a.typ = tNamespace := by
+        have : n.typ = a.typ := by simpa [typeMatches] using htyp
+        rw [← this]; exact hnt
       refine ⟨editedRow n a (maxVer s.ents + 1) nsId, (mem_replaceRow _ _ _).mpr (Or.inl ⟨rfl, n, hrm, rfl⟩), rfl, hnt, ?_⟩
-      by_cases hat : a.typ = tNamespace
-      · left
-        have := (hpart _ _ rfl hat n hrm hrid).1
-        simp [editedRow, this]
-      · right; exact ⟨hrid.symm, hat⟩
-    · exact ⟨n, (mem_replaceRow _ _ _).mpr (Or.inr ⟨hn, hid⟩), rfl, hnt, Or.inl rfl⟩
+      have := (hpart _ _ rfl hat n hrm hrid).1
+      simp [editedRow, this]
+    · exact ⟨n, (mem_replaceRow _ _ _).mpr (Or.inr ⟨hn, hid⟩), rfl, hnt, rfl⟩
 
-/-- a request is well-typed for the state it runs in when it does not aim a foreign type at a namespace's id -/
-def WellTyped (s : State) (a : SaveReq) : Prop := ∀ r ∈ s.ents, r.id = a.id → r.typ = tNamespace → a.typ = tNamespace
+/-- (kept from the round before the type test existed; now a corollary) a namespace row can only be renamed by a request of a
+    foreign type aimed at its id — which the current code rejects, so the second alternative never occurs -/
+theorem namespace_rename_only_by_foreign_type (s : State) (hi : Inv s) (a : SaveReq) :
+    ∀ n ∈ s.ents, n.typ = tNamespace →
+      ∃ n' ∈ (save s a).1.ents, n'.id = n.id ∧ n'.typ = tNamespace ∧ (n'.name = n.name ∨ (a.id = n.id ∧ a.typ ≠ tNamespace)) := by
+  intro n hn hnt
+  obtain ⟨n', h1, h2, h3, h4⟩ := namespace_keeps_name s hi a n hn hnt
+  exact ⟨n', h1, h2, h3, Or.inl h4⟩
 
-/-- every entity request of the history is well-typed in the state it runs in -/
-def WellTypedHistory (c : Cfg) : State → List Op → Prop
-  | _, [] => True
-  | s, .save a :: ops => WellTyped s a ∧ WellTypedHistory c (save s a).1 ops
-  | s, op :: ops => WellTypedHistory c (step c s op) ops
-
-/-- "namespaces cannot be renamed", end to end over histories: along ANY history whose entity requests are well-typed (creates,
-    edits, renames, deletes of anything, builtin ids and create flags included, interleaved with mapping operations) every
+/-- "namespaces cannot be renamed", END TO END AND UNCONDITIONAL: along ANY history of requests — creates, edits, renames, deletes
+    of anything, requests of any type aimed at any id, builtin ids and create flags, interleaved with mapping operations — every
     namespace keeps its id, its type and its name forever. -/
-theorem namespace_not_renamable (c : Cfg) : ∀ (ops : List Op) (s : State), Inv s → WellTypedHistory c s ops →
+theorem namespace_not_renamable (c : Cfg) : ∀ (ops : List Op) (s : State), Inv s →
     ∀ n ∈ s.ents, n.typ = tNamespace → ∃ n' ∈ (run c s ops).ents, n'.id = n.id ∧ n'.typ = tNamespace ∧ n'.name = n.name := by
   intro ops
   induction ops with
-  | nil => intro s _ _ n hn hnt; exact ⟨n, hn, rfl, hnt, rfl⟩
+  | nil => intro s _ n hn hnt; exact ⟨n, hn, rfl, hnt, rfl⟩
   | cons op ops ih =>
-    intro s hi hw n hn hnt
+    intro s hi n hn hnt
     have hi' := step_inv c s op hi
     cases op with
     | save a =>
-      obtain ⟨hwa, hw'⟩ := hw
-      obtain ⟨n1, hn1, hid1, ht1, hname1⟩ := namespace_rename_only_by_foreign_type s hi a n hn hnt
-      have hname : n1.name = n.name := by
-        rcases hname1 with h | ⟨hid, hne⟩
-        · exact h
-        · exact absurd (hwa n hn hid.symm hnt) hne
-      obtain ⟨n2, hn2, hid2, ht2, hname2⟩ := ih _ hi' hw' n1 hn1 ht1
-      exact ⟨n2, hn2, by rw [hid2, hid1], ht2, by rw [hname2, hname]⟩
+      obtain ⟨n1, hn1, hid1, ht1, hname1⟩ := namespace_keeps_name s hi a n hn hnt
+      obtain ⟨n2, hn2, hid2, ht2, hname2⟩ := ih _ hi' n1 hn1 ht1
+      exact ⟨n2, hn2, by rw [hid2, hid1], ht2, by rw [hname2, hname1]⟩
     | getOrCreate m k now =>
       have h := step_other c s (.getOrCreate m k now) (by intro a h; cases h)
-      exact ih _ hi' hw n (by rw [h.1]; exact hn) hnt
+      exact ih _ hi' n (by rw [h.1]; exact hn) hnt
     | put kvs =>
       have h := step_other c s (.put kvs) (by intro a h; cases h)
-      exact ih _ hi' hw n (by rw [h.1]; exact hn) hnt
+      exact ih _ hi' n (by rw [h.1]; exact hn) hnt
     | delete ids =>
       have h := step_other c s (.delete ids) (by intro a h; cases h)
-      exact ih _ hi' hw n (by rw [h.1]; exact hn) hnt
+      exact ih _ hi' n (by rw [h.1]; exact hn) hnt
     | reset m l now =>
       have h := step_other c s (.reset m l now) (by intro a h; cases h)
-      exact ih _ hi' hw n (by rw [h.1]; exact hn) hnt
+      exact ih _ hi' n (by rw [h.1]; exact hn) hnt
+
+/-- the same for every type: along any history every entity keeps the type it was created with -/
+theorem entity_type_never_changes (c : Cfg) : ∀ (ops : List Op) (s : State), Inv s →
+    ∀ n ∈ s.ents, ∃ n' ∈ (run c s ops).ents, n'.id = n.id ∧ n'.typ = n.typ := by
+  intro ops
+  induction ops with
+  | nil => intro s _ n hn; exact ⟨n, hn, rfl, rfl⟩
+  | cons op ops ih =>
+    intro s hi n hn
+    have hi' := step_inv c s op hi
+    cases op with
+    | save a =>
+      obtain ⟨n1, hn1, hid1, ht1⟩ := save_keeps_types s hi a n hn
+      obtain ⟨n2, hn2, hid2, ht2⟩ := ih _ hi' n1 hn1
+      exact ⟨n2, hn2, by rw [hid2, hid1], by rw [ht2, ht1]⟩
+    | getOrCreate m k now =>
+      have h := step_other c s (.getOrCreate m k now) (by intro a h; cases h)
+      exact ih _ hi' n (by rw [h.1]; exact hn)
+    | put kvs =>
+      have h := step_other c s (.put kvs) (by intro a h; cases h)
+      exact ih _ hi' n (by rw [h.1]; exact hn)
+    | delete ids =>
+      have h := step_other c s (.delete ids) (by intro a h; cases h)
+      exact ih _ hi' n (by rw [h.1]; exact hn)
+    | reset m l now =>
+      have h := step_other c s (.reset m l now) (by intro a h; cases h)
+      exact ih _ hi' n (by rw [h.1]; exact hn)
 
 /-- the pinned tree: a namespace "create" for an existing builtin id renames the row (replayed on the real code by the
     harness: oracle signature `namespace-renamed`) -/
@@ -1037,11 +1087,12 @@ example : (saveV .fixed builtinNs (nsReq 3 1 false)) = (builtinNs, .err .renameN
 example : (save builtinNs (nsReq 2 1 true)).2 = .err .exists := by decide
 example : (save builtinNs (nsReq 2 1 false)).2 = .ok (mkEvent (nsReq 2 1 false) (-3) 2 0) false := by decide
 
-/-- Observation (reported, not part of the property's quantifier as read here): SaveEntity never compares the request's
-    type with the row's type, so a request of type *metric* naming a namespace row's id and version overwrites that row,
-    name included. The theorem above is therefore about requests of type namespace. -/
-example : (save builtinNs { nsReq 7 1 false with typ := tMetric }).1.ents.map (fun e => (e.typ, e.name)) = [(tNamespace, ⟨0, 7⟩)] := by
+/-- The second defect (fixed by commit fb668983, `Variant.untyped` = the code before it): SaveEntity selected the row to edit by
+    (id, version) only, so a request of type *metric* naming a namespace row's id and version overwrote that row, name included
+    (reachable through RawEditEntity: corpus/C15/type-mismatch-namespace-rename.ops). The fixed code answers invalid version. -/
+example : (saveV .untyped builtinNs { nsReq 7 1 false with typ := tMetric }).1.ents.map (fun e => (e.typ, e.name)) = [(tNamespace, ⟨0, 7⟩)] := by
   decide
+example : save builtinNs { nsReq 7 1 false with typ := tMetric } = (builtinNs, .err .invalidVersion) := by decide
 
 
 /-! ### C15.6  the journal returns each entity's latest version exactly once in ascending version order -/
@@ -1462,17 +1513,16 @@ example : (save s3 (mk 2 1 1 false tNamespace)).2 = .err .renameNs := by decide
 example : (journal s3 1 1000).map (·.id) = [2, 3] ∧ (journal s3 0 2).map (·.id) = [1, 2] ∧ (journal s3 2 (-1)).map (·.id) = [3] := by decide
 
 
--- `namespace_not_renamable`: a well-typed history that tries everything on namespace w1 (edit, rename attempt, delete, builtin-style
--- create flag) and renames/moves other entities around it; the namespace keeps its name
-example : WellTypedHistory cfg0 s3 [.save (mk 2 1 1 false tNamespace), .save (mk 1 1 1 false tNamespace), .save (mk 9 3 3 false tMetric),
-    .save (mk 1 1 4 true tNamespace), .save (mk 5 2 2 false tMetric)] := by
-  simp only [WellTypedHistory, WellTyped]; decide
-example : ((run cfg0 s3 [.save (mk 2 1 1 false tNamespace), .save (mk 1 1 1 false tNamespace), .save (mk 9 3 3 false tMetric)]).ents.map
+-- `namespace_not_renamable`: a history that tries everything on namespace w1 (id 1) — a rename attempt, an edit, a METRIC request
+-- aimed at its id and version, a create-flag request — while other entities are renamed around it; w1 keeps name and type
+example : ((run cfg0 s3 [.save (mk 2 1 1 false tNamespace), .save (mk 1 1 1 false tNamespace), .save (mk 7 1 4 false tMetric),
+    .save (mk 9 3 3 false tMetric), .save (mk 1 1 4 true tNamespace)]).ents.map
     (fun e => (e.id, e.typ, e.name.loc, e.version))) = [(1, 4, 1, 4), (2, 0, 5, 2), (3, 0, 9, 5)] := by decide
--- the ill-typed request the hypothesis excludes (a finding, reachable through RawEditEntity): type metric aimed at namespace id 1
-example : ¬ WellTyped s3 (mk 7 1 1 false tMetric) := by
-  intro h; exact absurd (h _ (by decide : (⟨1, ⟨0, 1⟩, 0, 1, 1700000000, 0, 7, 2, 4⟩ : Entity) ∈ s3.ents) rfl rfl) (by decide)
-example : (save s3 (mk 7 1 1 false tMetric)).1.ents.map (fun e => (e.id, e.typ, e.name.loc)) = [(1, 4, 7), (2, 0, 5), (3, 0, 6)] := by decide
+-- `foreign_type_edit_rejected` / `edit_preserves_type`: a dashboard request aimed at metric 3 is refused, a metric request goes through
+example : save s3 (mk 6 3 3 false tDashboard) = (s3, .err .invalidVersion) := by decide
+example : effCreate s3 (mk 6 3 3 false tDashboard) = false ∧ (∀ r ∈ s3.ents, r.id = 3 → r.typ ≠ tDashboard) := by decide
+-- before fb668983 the same request overwrote the metric and the returned event claimed it was a dashboard
+example : (saveV .untyped s3 (mk 6 3 3 false tDashboard)).2 = .ok (mkEvent (mk 6 3 3 false tDashboard) 3 4 0) false := by decide
 
 -- long-poll: client 1 parked at From 2 (it holds everything up to 2), client 2 parked at From 3 = the version of the pending event
 -- of entity 3; the broadcast reads from the smaller From: client 1 gets version 3, client 2 gets nothing and stays parked
